@@ -50,7 +50,7 @@ REGISTRY = dict(
 TIERS = {
     "quick": dict(lists=100, a=["small"], b=["quick"], refines=None),
     "thorough": dict(lists=1500, a=["thorough-backend", "thorough-cli", "thorough-triples"],
-                     b=["thorough-backend", "thorough-cli", "thorough-triples"], refines="thorough-all-backend"),
+                     b=["thorough-backend", "thorough-cli", "thorough-triples"], refines="thorough-backend"),
 }
 
 CFG_A = """SPECIFICATION Spec
@@ -233,6 +233,8 @@ def run_harness(ctx, harness, reqs, tag):
 def blame(key, bad):
     """option names of the smallest violating sub-case that was itself evaluated"""
     lv, args = key
+    if args and (lv, ()) in bad:
+        return ["(no option at all)"]
     if len(args) > 1:
         s1 = [a for a in args if (lv, (a,)) in bad]
         if s1:
@@ -318,6 +320,8 @@ def text_diff(o, exp):
         d.append("use_package")
     for k in ("gen_setter", "keep_unknown_fields", "nil_safe", "enum_as_int_32", "frugal_tag", "gen_db_tag",
               "no_processor", "no_default_serdes", "with_reflection", "skip_empty"):
+        if k == "skip_empty" and "trim_idl" in on:
+            continue        # the trimmer drops the unused include whose empty file is the signature
         if o[k] != (k in on):
             d.append(k)
     if o["marshal"] != ("json_enum_as_text" in on or "enum_marshal" in on):
